@@ -126,7 +126,7 @@ InContract(alg, p, box) ==
                                   \* l_j > u_j is an (unsatisfiable) in-contract parametrisation
                                   /\ \A j \in 0..(m - 1) : 0 <= p[2 + j] /\ 0 <= p[2 + m + j]
                                   /\ \A k \in 1..n : p[1] <= box[k][1] /\ box[k][2] <= p[1] + m - 1
-       [] alg = "lexicographic_leq" -> n >= 2 /\ n % 2 = 0
+       [] alg = "lexicographic_leq" -> n >= 2      \* an odd arity is used by the shipped Schur model: the last variable is ignored
        [] alg \in {"max_eq", "max_leq", "min_eq", "min_geq"} -> n >= 2
        [] alg \in {"no_sub_cycle", "scc"} -> n >= 1 /\ \A k \in 1..n : 0 <= box[k][1] /\ box[k][2] <= n - 1
        [] alg = "relation"     -> n >= 1 /\ Len(p) >= n /\ Len(p) % n = 0
